@@ -578,7 +578,7 @@ func ServerWithOptions(conn net.PacketConn, rAddr net.Addr, opts ...ServerOption
 // Read reads data from the connection.
 func (c *Conn) Read(buff []byte) (n int, err error) { //nolint:cyclop
 	// The implicit handshake is part of the call: the read deadline bounds it.
-	if err := c.HandshakeContext(c.readDeadline); err != nil {
+	if err := c.HandshakeContext(c.implicitHandshakeContext(c.readDeadline)); err != nil {
 		if errors.Is(err, context.DeadlineExceeded) {
 			return 0, dtlserrors.ErrDeadlineExceeded
 		}
@@ -651,7 +651,7 @@ func (c *Conn) Write(payload []byte) (int, error) {
 	}
 
 	// The implicit handshake is part of the call: the write deadline bounds it.
-	if err := c.HandshakeContext(c.writeDeadline); err != nil {
+	if err := c.HandshakeContext(c.implicitHandshakeContext(c.writeDeadline)); err != nil {
 		if errors.Is(err, context.DeadlineExceeded) {
 			return 0, dtlserrors.ErrDeadlineExceeded
 		}
@@ -788,6 +788,19 @@ func (c *Conn) Close() error {
 	}
 
 	return err
+}
+
+// implicitHandshakeContext is the context Read and Write run the implicit
+// handshake under: their deadline. For an imported connection there is no
+// handshake to wait for, only the state machine to start in its finished state;
+// a deadline that has already passed must fail the call, not cancel that start
+// and close the connection with it.
+func (c *Conn) implicitHandshakeContext(deadline context.Context) context.Context {
+	if c.handshakeConfig != nil && c.handshakeConfig.ResumeState != nil {
+		return context.Background()
+	}
+
+	return deadline
 }
 
 // ConnectionState returns basic DTLS details about the connection.
